@@ -273,7 +273,64 @@ func checkDenseMdotM(c *core.Ctx, pkg *packages.Package, f *fnCtx, cons string) 
 		}
 		return true
 	})
-	c.Check(rejected || fullBuf, "C08.R4", cons, "result aliasing both factors", sel.Body.Pos(),
+	// or the other factor is replaced by a private copy when r shares storage with both (a top-level statement before the
+	// schedule selection): if r.loc == a.loc && r.loc == b.loc { <other> = <other>.Clone...() }
+	copied := false
+	for _, st := range fd.Body.List {
+		is, ok := st.(*ast.IfStmt)
+		if !ok || is == sel || is.Else != nil || is.Pos() > sel.Pos() {
+			continue
+		}
+		covers := map[int]bool{}
+		conj := true
+		var walk func(e ast.Expr)
+		walk = func(e ast.Expr) {
+			b2, ok := ast.Unparen(e).(*ast.BinaryExpr)
+			if !ok {
+				conj = false
+				return
+			}
+			if b2.Op == token.LAND {
+				walk(b2.X)
+				walk(b2.Y)
+				return
+			}
+			if b2.Op == token.EQL && isStorageLoc(b2.X) && isStorageLoc(b2.Y) {
+				lr, lp := f.baseOf(b2.X)
+				rr, rp := f.baseOf(b2.Y)
+				if lr && rp >= 0 {
+					covers[rp] = true
+					return
+				}
+				if rr && lp >= 0 {
+					covers[lp] = true
+					return
+				}
+			}
+			conj = false
+		}
+		walk(is.Cond)
+		if !conj || !covers[0] || !covers[1] {
+			continue
+		}
+		for _, bs := range is.Body.List {
+			as, ok := bs.(*ast.AssignStmt)
+			if !ok || as.Tok != token.ASSIGN || len(as.Lhs) != 1 || len(as.Rhs) != 1 {
+				continue
+			}
+			_, lp := f.baseOf(as.Lhs[0])
+			ce, ok := ast.Unparen(as.Rhs[0]).(*ast.CallExpr)
+			if !ok || lp != otherPar || !strings.HasPrefix(calleeName(ce), "Clone") {
+				continue
+			}
+			if selx, ok := ast.Unparen(ce.Fun).(*ast.SelectorExpr); ok {
+				if _, rp := f.baseOf(selx.X); rp == otherPar {
+					copied = true
+				}
+			}
+		}
+	}
+	c.Check(rejected || fullBuf || copied, "C08.R4", cons, "result aliasing both factors", sel.Body.Pos(),
 		"with r sharing storage with both factors (r.MdotM(r, r)) the "+need[aliasPar]+"-buffered schedule re-reads elements of the other factor that were already overwritten; the case is neither rejected nor fully buffered")
 }
 
